@@ -697,6 +697,8 @@ func runNameRefusals(c *Ctx) {
 			case *ast.CallExpr:
 				if calleeIs(info, x, "path/filepath", "IsAbs") && len(x.Args) == 1 && ObjOf(info, x.Args[0]) == param {
 					what = "absolute"
+				} else if nulOnly(info, x) {
+					what = "a NUL byte" // no file system has such names: refusing them refuses nothing that exists
 				} else {
 					return types.ExprString(cond), false
 				}
@@ -956,4 +958,24 @@ func runLegacyReadErr(c *Ctx) {
 	if n == 0 {
 		c.Bad("legacy-read-err/none", f.Pos(), "receiveFileChunksWindowed has no successful return behind its exit label")
 	}
+}
+
+// nulOnly: strings.Contains / ContainsRune / IndexByte ... whose needle is the NUL byte alone.
+func nulOnly(info *types.Info, call *ast.CallExpr) bool {
+	fn := Callee(info, call)
+	if fn == nil || fn.Pkg() == nil || fn.Pkg().Path() != "strings" || len(call.Args) != 2 {
+		return false
+	}
+	tv := info.Types[call.Args[1]]
+	if tv.Value == nil {
+		return false
+	}
+	switch tv.Value.Kind() {
+	case constant.String:
+		return constant.StringVal(tv.Value) == "\x00"
+	case constant.Int:
+		v, ok := constant.Int64Val(tv.Value)
+		return ok && v == 0
+	}
+	return false
 }
